@@ -51,6 +51,13 @@ CHECKS["C20"] = dict(engine="clean", design="4 C20", technique="TLA+ model check
          "the real cleaners and TLC judges the recorded outputs (incl. clean_text(t, s) vs step-by-step for all lists of <= 3 steps with repeats and unknown names, and "
          "html() = visible text nodes joined by spaces) and compares class images with the model."),
    note="Trusted: TLC + Json module; class representatives (harness/drv_clean.py); lxml's HTML parser defines what a text node is (documents avoid leading whitespace in text nodes, <title>, empty input).")
+CHECKS["C13"] = dict(engine="ahofilter", design="4 C13", technique="regular-language inclusion decided by TLC on the product NFA x Aho-Corasick automaton (RegexIncl.tla) for every extractor + TLC-judged differential traces",
+   text=("For each of the ~6,800 extractors built from the installed reporters-db the pattern is parsed with Python's own regex parser into an epsilon-free NFA whose atomic "
+         "predicates are classified by `re` itself over all 0x110000 code points; TLC explores the product with the Aho-Corasick automaton of the extractor's filter strings "
+         "(fold as in the tokenizer) and reports every accepting product state that has seen no literal -- a complete decision of L(pattern) in Sigma* literals Sigma*. "
+         "Counterexample words are confirmed on the real regex and real get_extractors before they count. In addition one shortest accepted word per extractor, generated "
+         "documents and random sub-lists are run through AhocorasickTokenizer and the reference Tokenizer and TLC judges matching-subset-selected and stream equality."),
+   note="Trusted for passing verdicts: the regex->NFA translation and the AC table construction in harness/regex2nfa.py (validated by witness words in both directions); anchors treated as epsilon.")
 NA_REASON = "check not built yet (work in progress; see DESIGN.md section 10 build order)"
 checks = []
 for p in props:
@@ -74,6 +81,8 @@ m = {"version": 1,
               "serves_properties": ["C12"], "kind_free_text": "TLA+ spec, TLC model checking, configuration replay, TLC trace validation"},
              {"name": "clean", "path": "spec/Clean.tla spec/MC_Clean.tla spec/Trace_Clean.tla harness/chk_clean.py harness/drv_clean.py",
               "serves_properties": ["C20"], "kind_free_text": "TLA+ spec, TLC model checking, exhaustive replay, TLC trace validation"},
+             {"name": "ahofilter", "path": "spec/RegexIncl.tla spec/Trace_AhoFilter.tla harness/regex2nfa.py harness/chk_aho.py harness/drv_aho.py",
+              "serves_properties": ["C13"], "kind_free_text": "regex->NFA translation, TLC product reachability, TLC-judged differential traces"},
              {"name": "annotate", "path": "spec/Annotate.tla spec/SpanUpdater.tla spec/MC_Annotate.tla spec/MC_SpanUpdater.tla spec/Trace_Annotate.tla spec/Trace_SpanUpdater.tla harness/chk_annotate.py harness/drv_annotate.py",
               "serves_properties": ["C09", "C10", "C11"], "kind_free_text": "TLA+ spec, TLC model checking, configuration replay, TLC trace validation"}],
  "checks": checks,
